@@ -37,7 +37,7 @@ def gen_history(rng, nops):
     for _ in range(nops):
         op = rng.weighted([("as", 24), ("st", 7), ("at", 3), ("am", 8), ("ams", 3), ("gm", 3), ("au", 6),
                            ("pop", 6), ("mk", 12), ("sw", 11), ("rd", 14), ("mp", 3), ("stat", 2),
-                           ("du", 2), ("cmp", 8)])
+                           ("du", 2), ("cmp", 8), ("tc", 1), ("tca", 3), ("tcs", 1)])
         if op in ("as", "st"):
             v = f"h{nh}"; nh += 1; hs.append(v)
             lines.append(f"{op} {v} {hexs(gen_string(rng, pool))}")
@@ -45,6 +45,11 @@ def gen_history(rng, nops):
         elif op == "at":
             v = f"h{nh}"; nh += 1; hs.append(v)
             lines.append(f"at {v}")
+        elif op in ("tc", "tcs"):
+            lines.append(op)
+        elif op == "tca":
+            v = f"h{nh}"; nh += 1; hs.append(v)
+            lines.append(f"tca {v}")
         elif op == "am" and hs:
             k = rng.range(0, 3)
             parts = [rng.pick(hs) for _ in range(k)]
@@ -119,8 +124,9 @@ def oracle(lines, impl):
                     if w in protected: protected.add(v)
                     if w in last_mark: last_mark[v] = last_mark[w]
                     created[v] = min(created[v], created.get(w, i))
-        elif op == "at":
-            hid[t[1]] = a; src[t[1]] = unhex(a[2:]) if a.startswith("i:") else None
+        elif op in ("at", "tca"):
+            if a != "skip":
+                hid[t[1]] = a; src[t[1]] = unhex(a[2:]) if a.startswith("i:") else None
         elif op == "am" and a.startswith("m:"):
             for v in t[1:]:
                 # protected only if the read issued just before this op succeeded
@@ -196,7 +202,7 @@ def densify(lines):
         if t[0] in ("mk", "am"):
             out += [f"rd {v}" for v in t[1:]]
         out.append(l)
-        if t[0] in ("as", "st", "at") and t[1] not in hs:
+        if t[0] in ("as", "st", "at", "tca") and t[1] not in hs:
             hs.append(t[1])
         if t[0] != "rd":
             out += [f"rd {v}" for v in hs]
